@@ -1054,4 +1054,103 @@ theorem refineNamesM_spec (names : DimNames) (t : M) (hc : Coherent t) : KeepsMe
     · exact setNamesM_spec _ _ hc
 
 
+/-! ### update -/
+
+/-- `_convert_to_tensordict`: what the constructor builds from a dict payload fits the metadata it was given -/
+theorem convertKids_spec (bs : Shape) (dv : Option Nat) (ns : Option DimNames) (pv : List (String × PV)) (acc : Kids)
+    (hc : Coherent (.node bs dv ns acc)) (r : Kids) (h : convertKids bs dv ns pv acc = .ok r) :
+    Coherent (.node bs dv ns r) := by
+  fun_induction convertKids bs dv ns pv acc generalizing r
+  · simp at h; subst h; exact hc
+  · simp at h
+  · rename_i k s d rest acc x acc' v' hval ih
+    have hv := validate_spec bs dv ns acc (.leaf s d) hc (Coherent.leaf _ _)
+    simp only at hv; rw [hval] at hv
+    obtain ⟨hco, hfit⟩ := hv
+    obtain ⟨hf, hcv⟩ := hfit v' rfl
+    -- the names returned by validate are not used for a tensor value: the container's names are unchanged
+    have hco' : Coherent (.node bs dv ns acc') := Coherent.node _ _ _ _ hc.names_len hco.kid_fits hco.kid_coh
+    exact ih (hco'.kset k hf hcv) r h
+  · simp at h
+  · rename_i k sub rest acc ckids hsub ih2 ih1
+    have hck := ih2 hc.empty_like ckids hsub
+    exact ih1 (hc.kset k (fits_empty_like bs dv ns ckids) hck) r h
+
+theorem setPathPV_spec (p : Path) (v : PV) (t : M) (hc : Coherent t) : KeepsMeta t (setPathPV p v t).1 := by
+  fun_induction setPathPV p v t
+  · exact KeepsMeta.refl hc
+  · exact KeepsMeta.refl hc
+  · rename_i k s d bs dv ns kids ns' kids' e hval
+    have := validate_spec bs dv ns kids (.leaf s d) hc (Coherent.leaf _ _)
+    simp only at this; rw [hval] at this
+    exact keepsMeta_node this.1
+  · rename_i k s d bs dv ns kids ns' kids' v' hval
+    have := validate_spec bs dv ns kids (.leaf s d) hc (Coherent.leaf _ _)
+    simp only at this; rw [hval] at this
+    obtain ⟨hf, hcv⟩ := this.2 v' rfl
+    exact keepsMeta_node (this.1.kset k hf hcv)
+  · exact KeepsMeta.refl hc
+  · rename_i k sub bs dv ns kids ckids hconv
+    have hck := convertKids_spec bs dv ns sub [] hc.empty_like ckids hconv
+    exact keepsMeta_node (hc.kset k (fits_empty_like bs dv ns ckids) hck)
+  · rename_i k k2 rest v bs dv ns kids hk c o hx ih
+    have ih' := ih hc.empty_like
+    rw [hx] at ih'
+    exact keepsMeta_node (hc.kset k (ih'.fits (fits_empty_like bs dv ns [])) ih'.2.2)
+  · rename_i k k2 rest v bs dv ns kids cbs cdv cns sub hk c o hx ih
+    have hm := kget_mem hk
+    have ih' := ih (hc.kid_coh k _ hm)
+    rw [hx] at ih'
+    exact keepsMeta_node (hc.kset k (ih'.fits (hc.kid_fits k _ hm)) ih'.2.2)
+  · exact KeepsMeta.refl hc
+
+/-- `update(payload)`: whatever the payload and wherever it stops, the receiver stays coherent -/
+theorem updateC_spec (n : Nat) (items : List (Path × PV)) (t : M) (hc : Coherent t) : KeepsMeta t (updateC n items t).1 := by
+  induction n generalizing items t with
+  | zero => cases items <;> simp [updateC] <;> exact KeepsMeta.refl hc
+  | succ n ih =>
+    cases items with
+    | nil => simp [updateC]; exact KeepsMeta.refl hc
+    | cons a rest =>
+      obtain ⟨p, v⟩ := a
+      cases t with
+      | leaf s d => simp [updateC]; exact KeepsMeta.refl hc
+      | node bs dv ns kids =>
+        cases p with
+        | nil => simp [updateC]; exact KeepsMeta.refl hc
+        | cons k sub =>
+          have hdirect : KeepsMeta (.node bs dv ns kids)
+              (match setPathPV (k :: sub) v (.node bs dv ns kids) with
+                | (t', .err e) => (t', Out.err e)
+                | (t', .ok) => updateC n rest t').1 := by
+            have h1 := setPathPV_spec (k :: sub) v _ hc
+            cases hs : setPathPV (k :: sub) v (.node bs dv ns kids) with
+            | mk t' o =>
+              rw [hs] at h1
+              cases o with
+              | err e => exact h1
+              | ok => exact h1.trans (ih rest t' h1.2.2)
+          simp only [updateC]
+          cases hk : kget k kids with
+          | none => exact hdirect
+          | some c =>
+            cases c with
+            | leaf s d => exact hdirect
+            | node cbs cdv cns csub =>
+              cases v with
+              | leaf s d => exact hdirect
+              | dict pv =>
+                simp only []
+                have hm := kget_mem hk
+                have hin := ih (if sub = [] then pv.map (fun kv => ([kv.1], kv.2)) else [(sub, PV.dict pv)])
+                  (.node cbs cdv cns csub) (hc.kid_coh k _ hm)
+                cases hu : updateC n (if sub = [] then pv.map (fun kv => ([kv.1], kv.2)) else [(sub, PV.dict pv)]) (.node cbs cdv cns csub) with
+                | mk c' o =>
+                  rw [hu] at hin
+                  have hnode := keepsMeta_node (ns := ns) (kids := kids) (hc.kset k (hin.fits (hc.kid_fits k _ hm)) hin.2.2)
+                  cases o with
+                  | err e => exact hnode
+                  | ok => exact hnode.trans (ih rest _ hnode.2.2)
+
+
 end TdVerif.C01
